@@ -85,6 +85,8 @@ func newH(rt *rapid.T, prop string, o sim.Options) *H {
 	w := sim.New(rt, o)
 	h := &H{World: w, rt: rt, prop: prop, labels: map[string]bool{}, born: time.Now()}
 	w.WithLock(func() { h.brokerInit = w.Broker.Snapshot() })
+	// connections behave like net.Pipe or like TCP where the two differ
+	w.PipeLike = rapid.Bool().Draw(rt, "pipeLikeConnections")
 	return h
 }
 
